@@ -39,7 +39,26 @@ def cases(draw, maxfr=16, maxdim=20):
     om0 = draw(st.integers(-3200, 3200)) / 16.0
     step = draw(st.sampled_from([1, 4, 16, -4, 3])) / 16.0
     empty = draw(st.booleans())
-    return dict(kind=kind, nfr=nfr, ns=ns, nf=nf, fill=fill, seed=seed, thpos=thpos, om0=om0, step=step, empty=empty)
+    imtype = draw(st.sampled_from(["f32", "f32", "u16", "i32", "f64", "fortran", "strided"]))
+    return dict(kind=kind, nfr=nfr, ns=ns, nf=nf, fill=fill, seed=seed, thpos=thpos, om0=om0, step=step, empty=empty,
+                imtype=imtype)
+
+
+def as_image(frame, imtype):
+    """the same pixel values in the representations a detector image can arrive in"""
+    if imtype == "u16":
+        return frame.astype(np.uint16)
+    if imtype == "i32":
+        return frame.astype(np.int32)
+    if imtype == "f64":
+        return frame.astype(np.float64)
+    if imtype == "fortran":
+        return np.asfortranarray(frame)
+    if imtype == "strided":
+        big = np.zeros((frame.shape[0], 2 * frame.shape[1] + 1), np.float32)
+        big[:, 1::2] = frame
+        return big[:, 1::2]
+    return frame
 
 
 def build(case):
@@ -228,7 +247,7 @@ def check(case, rec=None):
     if not ok:
         return [exc_failure("labelimage()", li)]
     for k in range(len(vol)):
-        ok, e = guard(li.peaksearch, vol[k], th, float(omegas[k]))
+        ok, e = guard(li.peaksearch, as_image(vol[k], case.get("imtype", "f32")), th, float(omegas[k]))
         if ok:
             ok, e = guard(li.mergelast)
         if not ok:
@@ -242,7 +261,7 @@ def check(case, rec=None):
     outs = {t: io.StringIO() for t in ths}
     labims = {t: labelimage.labelimage(vol[0].shape, fileout=outs[t], sptfile=io.StringIO()) for t in ths}
     for k in range(len(vol)):
-        ok, e = guard(peaksearcher.peaksearch, "frame%04d" % k, _Frame(vol[k], float(omegas[k]), k),
+        ok, e = guard(peaksearcher.peaksearch, "frame%04d" % k, _Frame(as_image(vol[k], case.get("imtype", "f32")), float(omegas[k]), k),
                       blobcorrector.perfect(), ths, labims)
         if not ok:
             fails.append(exc_failure("peaksearcher.peaksearch frame %d" % k, e))
@@ -256,7 +275,7 @@ def check(case, rec=None):
             ex = exp if t == th else expected_rows(vol, t, omegas)[0]
             fails += compare("peaksearcher(threshold %g)" % t, outs[t].getvalue(), vol, t, omegas, ex)
     if rec is not None:
-        rec.case(case, fork > 0, ["kind:" + case["kind"], "th:" + case["thpos"]] + (["fork_or_join"] if fork else []) +
+        rec.case(case, fork > 0, ["kind:" + case["kind"], "th:" + case["thpos"], "image:" + case.get("imtype", "f32")] + (["fork_or_join"] if fork else []) +
                  (["no_peaks"] if not exp else []))
         rec.note("components_compared", len(exp))
     return fails
